@@ -224,7 +224,9 @@ func (b *setBox[T]) Do(o Op) *Viol {
 		vs := b.tuple(o.A[0])
 		arg := argSlice(vs)
 		b.a.add(arg...)
-		scribble(arg, b.sys.Poison)
+		if v := scribbleCheck(arg, b.sys.Poison, b.a.values, b.a.name, o.N); v != nil {
+			return v
+		}
 		for _, x := range vs {
 			b.refAdd(x)
 		}
@@ -232,7 +234,9 @@ func (b *setBox[T]) Do(o Op) *Viol {
 		vs := b.tuple(o.A[0])
 		arg := argSlice(vs)
 		b.a.remove(arg...)
-		scribble(arg, b.sys.Poison)
+		if v := scribbleCheck(arg, b.sys.Poison, b.a.values, b.a.name, o.N); v != nil {
+			return v
+		}
 		for _, x := range vs {
 			b.refRemove(x)
 		}
